@@ -18,6 +18,7 @@ from typing import (
 
 from ..constants import (
     DEFAULT_LISTENING_HOST,
+    PEER_CONNECT_TIMEOUT,
     PEER_INDIRECT_CONNECT_TIMEOUT,
 )
 from .connection import (
@@ -631,12 +632,16 @@ class Network:
             returned
         """
         await self.server_connection.send_message(GetPeerAddress.Request(username))
-        _, response = await self.create_server_response_future(
-            GetPeerAddress.Response,
-            fields={
-                'username': username
-            }
-        )
+        try:
+            response = await self.wait_for_server_message(
+                GetPeerAddress.Response,
+                fields={
+                    'username': username
+                },
+                timeout=PEER_CONNECT_TIMEOUT
+            )
+        except TimeoutError as exc:
+            raise PeerConnectionError(f"no address reply for user : {username}") from exc
 
         if response.ip == '0.0.0.0':
             logger.warning("GetPeerAddress : no address returned for username : %s", username)
